@@ -49,6 +49,10 @@ def plan(tier: str, seed: int) -> Plan:
         conds.append(Condition(f"faithful:{k}:{name}", "faithful", H, "faithful", {"ops": ops, "vleaf": vleaf}, T, required=False,
                                bounds="operation list fixed in shape; array index from {0,1,2,3,'-'}, values and document leaves symbolic ints "
                                       "(bool|int when a test is present); document {a: array len<=2, b: {c}, k}"))
+    for opts in ({"uri_decode": True}, {"unicode_escape": False}, {"uri_decode": True, "unicode_escape": False}, {}):
+        conds.append(Condition(f"options:{opts}", "options", H, "options",
+                               {"opts": opts, "rawpaths": ["/a%20b/n", "/x\\u0041", "/a b/n", "/a%20b/c", "/n", "/xA"]}, T,
+                               bounds="6 pointer texts on which uri_decode / unicode_escape make a difference x 3 operation lists"))
     conds.append(Condition("variants", "variants", H, "variants", {}, T * 2,
                            bounds="add vs addne vs addap on 12 target locations, document with symbolic leaves and array length<=2"))
     return Plan(
@@ -61,5 +65,5 @@ def plan(tier: str, seed: int) -> Plan:
             "document gives an equal result, and results share no structure with each other or the patch (container values later "
             "modified by an operation of the same patch included). addne/addap are compared with add on 12 targets."),
         assumptions=["pointer strings are concrete (indices come from a pool of five spellings)"],
-        outside=["operation lists longer than 3", "unicode_escape / uri_decode variants of the loader"],
+        outside=["operation lists longer than 3"],
     )
